@@ -31,5 +31,7 @@ NoSeek == {}
 KindsTrie == {"ins", "rem"}
 KindsTree == {"ins", "rem", "commit", "reopen"}
 KindsAll  == {"ins", "rem", "remx", "commit", "reopen", "onew", "ocommit", "oclose", "ocopy"}
+KindsAllF == KindsAll \cup {"ofork", "fins", "frem"}
+KindsFork == {"ins", "remx", "onew", "ocommit", "oclose", "ofork", "fins", "frem"}
 KindsOvl  == {"ins", "remx", "commit", "onew", "ocommit", "oclose", "ocopy"}
 =============================================================================
